@@ -88,8 +88,6 @@ RoundTripOk(full, n, plane, in, out) ==
   \/ out = ClampLegal(full, n, plane, in)
   \/ (full /\ plane # 1 /\ in = 0 /\ out = 1)
 
-\* C09 budget: max(1, floor(0.015 * (2^n - 1)))
-Budget09(n) == LET b == (15 * (Pow2(n) - 1)) \div 1000 IN IF b < 1 THEN 1 ELSE b
 
 \* tolerances that the properties state (names say which property)
 Tol01     == D(0, 0, 0300, 0, 0)         \* 3e-6
